@@ -97,11 +97,12 @@ func (f *Fragmentation) Process(id uint32, first, last uint16, more bool, vv buf
 	}
 	f.mu.Unlock()
 
-	res, done, consumed := r.process(first, last, more, vv)
+	res, done, consumed, err := r.process(first, last, more, vv)
 
 	f.mu.Lock()
 	f.size += consumed
-	if done {
+	if done || err != nil {
+		// A reassembly that failed is dropped as a whole.
 		f.release(r)
 	}
 	// Evict reassemblers if we are consuming more memory than highLimit until
